@@ -548,10 +548,12 @@ class ttensor:
         # Do the actual multiplications in the specified modes.
         new_u = self.factor_matrices.copy()
         for i, dim in enumerate(dims):
+            # The matrix product operator also covers sparse factor matrices
+            # (ndarray.dot does not know them)
             if transpose:
-                new_u[dim] = matrix[vidx[i]].transpose().dot(new_u[dim])
+                new_u[dim] = matrix[vidx[i]].transpose() @ new_u[dim]
             else:
-                new_u[dim] = matrix[vidx[i]].dot(new_u[dim])
+                new_u[dim] = matrix[vidx[i]] @ new_u[dim]
 
         return ttensor(self.core, new_u)
 
